@@ -702,6 +702,30 @@ pub fn special_scenario(rng: &mut Rng) -> Option<(Board, Vec<ChessMove>)> {
                     }
                 }
             }
+            // sometimes the double push itself UNCOVERS a check: o's king and one of c's sliders on a line through the
+            // pawn's start square (its home rank, or a diagonal) with only that pawn between them - the en-passant
+            // capture is then offered to a side that is in check by a slider on another line
+            if rng.chance(1, 4) {
+                let start_sq = sqi(rk(1), f) as i32;
+                let dirs = [(0, 1), (0, -1), (1, 1), (1, -1), (-1, 1), (-1, -1)];
+                let di = rng.below(6);
+                let (dr, df) = dirs[di];
+                let (kd, sd) = (1 + rng.below(4) as i32, 1 + rng.below(4) as i32);
+                let (kr, kf) = (start_sq / 8 + dr * kd, start_sq % 8 + df * kd);
+                let (sr, sf) = (start_sq / 8 - dr * sd, start_sq % 8 - df * sd);
+                if kr >= 0 && kr < 8 && kf >= 0 && kf < 8 && sr >= 0 && sr < 8 && sf >= 0 && sf < 8 {
+                    let (ks, ss) = ((kr * 8 + kf) as usize, (sr * 8 + sf) as usize);
+                    let mut clear = d.sq[ss].is_none() && (d.sq[ks].is_none() || d.sq[ks] == Some((Piece::King, o)));
+                    for t in 1..kd { let q = ((start_sq / 8 + dr * t) * 8 + start_sq % 8 + df * t) as usize; if d.sq[q].is_some() { clear = false; } }
+                    for t in 1..sd { let q = ((start_sq / 8 - dr * t) * 8 + start_sq % 8 - df * t) as usize; if d.sq[q].is_some() { clear = false; } }
+                    if clear {
+                        for i in 0..64 { if d.sq[i] == Some((Piece::King, o)) { d.sq[i] = None; } }
+                        d.sq[ks] = Some((Piece::King, o));
+                        let p = if di < 2 { if rng.chance(1, 2) { Piece::Rook } else { Piece::Queen } } else { if rng.chance(1, 2) { Piece::Bishop } else { Piece::Queen } };
+                        d.sq[ss] = Some((p, c));
+                    }
+                }
+            }
             let extra = rng.below(5); sprinkle(rng, &mut d, extra, Some(landing));
             first.push((sqi(rk(1), f), sqi(rk(3), f)));
             focus = Some(landing);
